@@ -28,7 +28,7 @@ impl Model {
             .model
             .iter()
             .enumerate()
-            .map(|(i, (d, s))| (*d, *s, i))
+            .map(|(i, (d, s))| (*d, resolve_open_name(vt, i, s), i))
             .collect();
         sorted.sort_by_key(|x| x.0);
         for w in sorted.windows(2) {
@@ -140,4 +140,24 @@ impl Model {
             "hole"
         }
     }
+}
+
+/// A model name starting with U+0001 is left open by the generator (variant declared with a raw identifier:
+/// `r#type` or `type`?).  It is learned from `as_str`, which must answer with one of the two spellings; every
+/// other item is then checked against the learned name.  Without `as_str`, or with another answer, the
+/// sentinel stays and every comparison on that variant fails.
+fn resolve_open_name(vt: &VTable, i: usize, s: &'static str) -> &'static str {
+    if !s.starts_with('\u{1}') {
+        return s;
+    }
+    let raw = &s[1..];
+    let plain = raw.strip_prefix("r#").unwrap_or(raw);
+    if let Some(f) = vt.as_str {
+        if let Ok(got) = crate::checks::guard(|| f(i)) {
+            if got == raw || got == plain {
+                return got;
+            }
+        }
+    }
+    s
 }
